@@ -271,6 +271,9 @@ func runDecode(out *hx.Out, prop string, seed uint64, n int) {
 	// 1b. the real metrics reporter behind ValidatePubsubMessage: label values from the message
 	metricsCase(s, 100000)
 
+	// 1c. what rejected messages of made-up validators leave behind
+	strangersCase(s, 6000)
+
 	// 2. fuzz-style runs: one case per target, n byte strings each
 	for ti, t := range targets {
 		out.Case("prop=%s fuzz target=%s", prop, t.name)
